@@ -73,8 +73,14 @@ def BFFM2_EINOx(
     y_cal = np.log10(ei_cal)
     x_eval = np.log10(ff_eval)
 
-    # Single log–log regression
-    slope, intercept = np.polyfit(x_cal, y_cal, 1)
+    # Single log–log regression. With a single distinct calibration flow the
+    # fit is rank deficient (np.polyfit then returns an arbitrary slope, or
+    # fails outright when that flow is 1 kg/s, i.e. log10 = 0): use the flat
+    # line through the mean instead.
+    if np.ptp(x_cal) == 0.0:
+        slope, intercept = 0.0, float(np.mean(y_cal))
+    else:
+        slope, intercept = np.polyfit(x_cal, y_cal, 1)
     NOxEI_sl = 10.0 ** (x_eval * slope + intercept)  # g/kg fuel at SLS-equivalent
 
     # Apply the humidity/θ/δ correction (Eqs. 44–45) [for cruise conditions]
